@@ -329,6 +329,9 @@ def placement_cases():
         "redundant_new": [["z", S("x a")]],
         "redundant_new2": [["z", T("top", "y")]],
         "redundant_rev": [["z", S("y a")]],
+        "redundant_desc_first": [["z", T("b", "a")]],
+        "redundant_a_top": [["z", S("a top")]],
+        "dup_top_spelled": [["TOP", S("a")]],
         "cycle": [["z", S("w")], ["w", S("z")]],
         "cycle_anchored": [["z", S("w a")], ["w", S("z")]],
         "self_parent": [["z", S("z")]],
@@ -362,6 +365,11 @@ def placement_cases():
                 steps = [upd(base), upd(fix(valid), [["nope", 1], ["x", 2], ["a", 3]][pos:] + [["nope", 1], ["x", 2], ["a", 3]][:pos]),
                          upd(fix(valid), [["x", 5]])]
                 yield mk_case(cls, top, None, steps, ["placement", "fault:data_unknown"])
+        # parents at different depths (valid), then the same node list with a redundant member added
+        yield mk_case(cls, top, None,
+                      [upd(fix([["a", S("top")], ["b", S("top")], ["c", S("b")], ["x", T("a", "c")]])),
+                       upd(fix([["y", T("a", "c", "b")]])), upd(fix([["w", S("  ")]])), upd(fix([["y", T("c", "a")]]))],
+                      ["placement", "depths"])
         # the constructor with an invalid batch
         yield mk_case(cls, top, None if cls == "semi" else upd(fix([["a", S("top")], ["z", S("nope")]])), [],
                       ["placement", "ctor"])
@@ -676,7 +684,9 @@ class C17(Check):
         "set and a snapshot of _hier/_loer/_data after every rejected call equal those before it)",
     ]
     trusted_base = ["hand-written model lean/Verif/C17/Model.lean, tied to delphin.hierarchy by the correspondence run",
-                    "normaliser is a parameter of the model and of every theorem (no assumption on it is used)"]
+                    "normaliser is a parameter of the model and of every theorem; the theorems about descendants/"
+                    "subsumes/compatible and the query form of the redundancy clause assume it idempotent (the code "
+                    "re-normalises in nested public calls; str.lower and the identity are idempotent)"]
 
     # ---- pins: constants, defaults and shape facts of the live code that the model mirrors
     def tables(self):
